@@ -59,11 +59,13 @@ def main():
         sh(f"cp -r /repo/target {SH_TARGET}")  # dependencies' artifacts are reusable, the crate rebuilds once
     wt = SH_WT
     # 1. clean shared worktree at the base commit, apply patch
-    sh(f"git checkout -q -- . && git clean -fdq && git checkout -q --detach {base}", cwd=wt)
+    sh(f"git reset -q --hard; git clean -fdq; git checkout -q --detach {base}; git reset -q --hard", cwd=wt)
     rc, o = sh(f"git apply --check {patch} && git apply {patch}", cwd=wt)
     if rc != 0:
         rc, o = sh(f"git apply -3 {patch} && git reset -q", cwd=wt)
         res["applied_with_3way"] = rc == 0
+        if rc != 0:
+            sh("git reset -q --hard; git clean -fdq", cwd=wt)
     if rc == 0:
         # from here on work with the patch as it applies to this base
         patch = os.path.join(MS, "current.patch")
@@ -138,7 +140,7 @@ def main():
     if os.path.exists(lg):
         os.makedirs(f"/verif/seeded/{name}", exist_ok=True)
         shutil.copy(lg, f"/verif/seeded/{name}/check.log")
-    sh(f"git apply -R {patch}", cwd=wt)
+    sh("git reset -q --hard; git clean -fdq", cwd=wt)
     return finish(res, d, out, name, own_wt)
 
 def finish(res, d, out, name, own_wt):
